@@ -936,6 +936,9 @@ def c01_each_once(ctx):
                   "a non-empty batch taken from the look-ahead queue can be dropped without being dispatched")
     for d in disp:
         ctx.check(not g.in_cycle(g.nodes_of(d)[0]), d, "at most one _dispatch per dispatch_one_batch call")
+        shared = [w for w in enclosing_withs(d) if any(dotted(i.context_expr) in LOCK_NAMES for i in w.items) and all(in_block(c, w.body) for c in gets)]
+        ctx.check(bool(shared), d, "taking a batch from the look-ahead queue and registering/submitting it happen in ONE critical section (submission order = queue order)",
+                  "the batch is taken under the lock but dispatched after the lock was released: another thread can take and register the next batch first, so results come back out of submission order")
     # nobody else touches the look-ahead queue
     for fn in _par_methods(ctx):
         if fn is f:
@@ -1447,6 +1450,9 @@ def c16_running(ctx):
     ctx.check(under_lock(t) and under_lock(s) and set(map(id, enclosing_withs(t))) & set(map(id, enclosing_withs(s))), s,
               "test and set of _running happen in one `with lock` block (atomic)", "test and set of _running are not in one locked block")
     ctx.check(g.every_path_to(g.nodes_of(s), g.nodes_of(t)), s, "the set is dominated by the test")
+    early = [a for a in nodes_of_type(f, (ast.Assign, ast.AugAssign)) if any(x.startswith("self.") for x in stores_to(a)) and a is not s and not g.every_path_to(g.nodes_of(a), g.nodes_of(t))]
+    ctx.check(not early, early[0] if early else s, "no per-call state is touched before the running test passed (a rejected overlapping call leaves the live run intact)",
+              "%s is reset before the `already running` test: a call that is about to be rejected with RuntimeError has already wiped the live run's state" % (stores_to(early[0])[0] if early else ""))
     call = F(ctx, "Parallel.__call__")
     gc_ = cfg_of(call)
     rc = [c for c in calls_in(call) if call_name(c) == "self._reset_run_tracking"]
@@ -1493,6 +1499,11 @@ def c16_genexit(ctx):
     ctx.check(isinstance(last, ast.Raise) and last.exc is None, last, "same-thread close re-raises GeneratorExit")
     if ab:
         ctx.check(g.every_path_to(g.nodes_of(last), g.nodes_of_all(ab)), last, "_abort() precedes the re-raise")
+        wr_ = [c for c in calls_in(body, "self._warn_exit_early")] + [c for c in calls_in(body) if call_name(c) == "warnings.warn" and not any(isinstance(a_, ast.If) and "get_ident" in unparse(a_.test) for a_ in ancestors(c))]
+        same_thread = [c for c in wr_ if call_name(c) == "self._warn_exit_early"]
+        ctx.check(all(g.every_path_to(g.nodes_of(c), g.nodes_of_all(ab)) for c in same_thread), same_thread[0] if same_thread else h,
+                  "the abort precedes the early-exit warning (a warning turned into an error cannot skip the abort)",
+                  "the early-exit warning is emitted before _abort(): with warnings as errors the abort is skipped and dispatching continues after close()")
     # detached branch
     thr = [n for n in walk_local(body) if isinstance(n, ast.ClassDef)]
     det = [a for a in walk_local(body) if isinstance(a, ast.Assign) and "detach_generator_exit" in stores_to(a) and is_const(a.value, True)]
@@ -1500,6 +1511,8 @@ def c16_genexit(ctx):
         run = [m for m in thr[0].body if isinstance(m, ast.FunctionDef) and m.name == "run"]
         ctx.need(run, "detached thread class has no run()")
         rc = [call_name(c) for c in calls_in(run[0])]
+        if "_parallel._warn_exit_early" in rc and "_parallel._abort" in rc:
+            ctx.check(rc.index("_parallel._abort") < rc.index("_parallel._warn_exit_early"), run[0], "detached thread: abort precedes the early-exit warning")
         ctx.check("_parallel._abort" in rc and "_parallel._terminate_and_reset" in rc and rc.index("_parallel._abort") < rc.index("_parallel._terminate_and_reset"), run[0],
                   "foreign-thread close: the detached thread aborts, then terminates and resets")
         ctx.check(bool(det), det[0] if det else h, "foreign-thread close sets the detach flag")
